@@ -21,6 +21,10 @@ use crate::{
     server::ResponseInfo,
 };
 
+/// Largest DNS message a UDP datagram can carry over IPv4: 65,535 octets minus the IPv4 (20) and
+/// UDP (8) headers.
+const MAX_UDP_PAYLOAD: u16 = 65_507;
+
 /// A [`crate::proto::serialize::binary::BinEncodable`] message with borrowed data for
 /// Responses in the Server
 ///
@@ -88,7 +92,9 @@ where
         let mut encoder = BinEncoder::new(&mut bytes);
         encoder.set_max_size(match protocol {
             Protocol::Udp => match &self.edns {
-                Some(edns) => edns.max_payload(),
+                // A requestor may advertise more than a datagram can carry; a larger reply could
+                // not be sent at all and the request would go unanswered.
+                Some(edns) => edns.max_payload().min(MAX_UDP_PAYLOAD),
                 // No EDNS, so the requestor advertised no buffer and RFC 1035 section 4.2.1
                 // restricts the message to 512 bytes
                 None => 512,
